@@ -26,6 +26,8 @@ type PodState struct {
 	Restarts  int32  `json:"restarts,omitempty"`
 	RestartAgoSec int `json:"restartAgoSec,omitempty"`
 	Waiting   string `json:"waiting,omitempty"`
+	SideRestarts      int32 `json:"sideRestarts,omitempty"`
+	SideRestartAgoSec int   `json:"sideRestartAgoSec,omitempty"`
 	StartAgoSec int  `json:"startAgoSec,omitempty"`
 	Suffix    string `json:"suffix,omitempty"`
 }
@@ -63,6 +65,14 @@ func (s *Sim) finishInjected(p *corev1.Pod, nodeName string, ps PodState) {
 		var out []corev1.ContainerStatus
 		for i, c := range p.Spec.Containers {
 			cs := corev1.ContainerStatus{Name: c.Name, Image: c.Image, Ready: ready, State: state}
+			if i == 1 && ps.SideRestarts > 0 {
+				cs.RestartCount = ps.SideRestarts
+				ago := time.Duration(ps.SideRestartAgoSec) * time.Second
+				if ago == 0 {
+					ago = 30 * time.Second
+				}
+				cs.LastTerminationState = corev1.ContainerState{Terminated: &corev1.ContainerStateTerminated{Reason: "Error", ExitCode: 1, FinishedAt: metav1.NewTime(now.Add(-ago))}}
+			}
 			if i == 0 && ps.Restarts > 0 {
 				cs.RestartCount = ps.Restarts
 				ago := time.Duration(ps.RestartAgoSec) * time.Second
